@@ -69,6 +69,7 @@ def gen(rng, tier, index):
         plan["n_load_steps"] = int(rng.integers(2, 7))
         if rng.random() < 0.25:
             plan["feature"] = "actuator"
+        plan["verbose"] = bool(rng.random() < 0.5)  # legal knob: progress output on / off must not change what is reported
         return plan
     if name == "Riks":
         plan["scene_kind"] = "truss"
@@ -169,7 +170,7 @@ def one_run(plan, log, faults=(), stop_frac=None, scene=None, out=None):
                 opts = SolverOptions(newton_atol=1e-8, newton_rtol=1e-8, newton_max_iter=25, continue_with_unconverged=plan["continue"])
                 O.t_grid = np.linspace(0, 1, plan["n_load_steps"] + 1)
                 O.n_expected = plan["n_load_steps"] + 1
-                O.sol = Newton(B.system, n_load_steps=plan["n_load_steps"], verbose=True, options=opts).solve()
+                O.sol = Newton(B.system, n_load_steps=plan["n_load_steps"], verbose=plan.get("verbose", True), options=opts).solve()
             elif name == "Riks":
                 system = System()
                 tr = plan["truss"]
